@@ -1331,7 +1331,7 @@ pub fn c06(tier: &str) -> (Vec<Space>, Focus) {
     specs.extend(decl_specs(3, 1));
     v.push(space("all DAGs x declarations n<=2 T=2, n=3 T=1; 6 concurrent _with APIs x order x limit{None,0}; stream, stream_with", specs, None, cfgs.clone()));
     v.push(space("all DAGs x declarations n=3 T=2", decl_specs(3, 2), None, cfgs.clone()));
-    v.extend(inside_poll_spaces(decl_specs(3, 1), "all DAGs x declarations n=3 T=1", vec![None, Some(0)], false, false));
+    v.extend(inside_poll_spaces(decl_specs(3, 1), "all DAGs x declarations n=3 T=1", vec![None], false, false));
     let nmax = 4;
     let a2 = apis.clone();
     v.push(space(&format!("shapes n<={nmax} without declarations, concurrent APIs (plain and _with)"), shapes_upto(0, nmax, true), None, move |s| {
